@@ -239,6 +239,8 @@ class ColumnCategorizer(Categorizer):
         return self._creader.sort_key(segment_docnum)
 
     def key_to_name(self, key):
+        # (the sort keys of a reversed column are not its values)
+        key = self._column_type.from_sort_key(key, self._reverse)
         return self._fieldobj.from_column_value(key)
 
 
